@@ -22,7 +22,7 @@ Proof.
   - destruct OK as [_ [Hs Hn]]. rewrite Hs, zl_eqb_refl. apply Z.leb_le in Hn. rewrite Hn. eexists. reflexivity.
   - unfold filtered_ok in OK. rewrite OK, Z.eqb_refl. eexists. reflexivity.
   - apply collapsed_total; assumption.
-  - rewrite (sliced_ok idx orders OK). eexists. reflexivity.
+  - destruct OK as [->|OK]; [eexists; reflexivity|]. rewrite (sliced_ok idx orders OK). eexists. reflexivity.
   - apply column_stack_total. exact OK.
 Qed.
 
@@ -41,7 +41,7 @@ Proof.
   - destruct (_ =? _); [|discriminate]. inversion E; subst. apply filtered_wf; assumption.
   - inversion E; subst. apply reindexed_wf. exact W.
   - eapply collapsed_wf; eassumption.
-  - eapply sliced_wf; eassumption.
+  - destruct OK as [->|OK]; [cbn [sliced] in E; inversion E; subst; exact W|]. eapply sliced_wf; eassumption.
   - eapply column_stack_wf; eassumption.
 Qed.
 
@@ -190,7 +190,8 @@ Proof.
     unfold spec_collapsed. split; [cbn [dn]; congruence|]. split; [cbn [dhs]; exact S'|]. cbn [dn dhs df].
     intros r hc [Hr Hh]. inversion Hh; subst hc. rewrite <- N in Hr.
     rewrite (collapsed_dense idx prec m idx' r W OK E Hr). rewrite (row_vals_refines idx d _ r R Hr). reflexivity.
-  - (* sliced *) destruct (sliced_shape idx orders idx' OK E) as [N' [S' _]]. unfold spec_sliced.
+  - (* sliced *) destruct OK as [->|OK]; [cbn [sliced spec_sliced] in *; inversion E; subst; exact R|].
+    destruct (sliced_shape idx orders idx' OK E) as [N' [S' _]]. unfold spec_sliced.
     destruct orders as [|o os].
     + cbn [sliced] in E. inversion E; subst. exact R.
     + split; [cbn [dn]; congruence|]. split; [cbn [dhs]; congruence|]. cbn [dn dhs df]. intros r hc' [Hr Hh].
